@@ -1452,12 +1452,23 @@ impl Compiler {
             private_members,
         });
 
+        // Hidden bindings that hold the evaluated keys of instance fields with computed keys
+        let field_key_names: Vec<Option<JsString>> = instance_fields
+            .iter()
+            .enumerate()
+            .map(|(index, field)| {
+                matches!(field.key, ObjectPropertyKey::Computed(_))
+                    .then(|| Self::computed_field_key_name(class_brand, index))
+            })
+            .collect();
+
         // Compile constructor (or create default one)
         let has_super = class.super_class.is_some();
         let ctor_chunk = if let Some(ctor) = constructor {
             self.compile_constructor_body(
                 ctor,
                 &instance_fields,
+                &field_key_names,
                 &instance_private_fields,
                 &instance_private_methods,
                 class_brand,
@@ -1467,6 +1478,7 @@ impl Compiler {
         } else {
             self.compile_default_constructor(
                 &instance_fields,
+                &field_key_names,
                 &instance_private_fields,
                 &instance_private_methods,
                 class_brand,
@@ -1570,6 +1582,22 @@ impl Compiler {
         // Process static private field decorators
         for field in &static_private_fields {
             self.compile_field_decorators(dst, field, true)?;
+        }
+
+        // Evaluate the computed keys of instance fields, once, where the constructor finds them
+        for (field, key_name) in instance_fields.iter().zip(&field_key_names) {
+            if let (ObjectPropertyKey::Computed(key_expr), Some(key_name)) = (&field.key, key_name)
+            {
+                let key_reg = self.builder.alloc_register()?;
+                self.compile_expression(key_expr, key_reg)?;
+                let key_var = self.builder.add_string(key_name.cheap_clone())?;
+                self.builder.emit(Op::DeclareVar {
+                    name: key_var,
+                    init: key_reg,
+                    mutable: false,
+                });
+                self.builder.free_register(key_reg);
+            }
         }
 
         // Initialize static fields (on the class constructor itself)
@@ -2088,6 +2116,7 @@ impl Compiler {
         &mut self,
         ctor: &ClassConstructor,
         instance_fields: &[&ClassProperty],
+        field_key_names: &[Option<JsString>],
         instance_private_fields: &[&ClassProperty],
         instance_private_methods: &[&ClassMethod],
         class_brand: u32,
@@ -2245,8 +2274,8 @@ impl Compiler {
 
         // Compile instance field initializers
         // These run before the rest of the user's constructor body
-        for field in instance_fields {
-            func_compiler.compile_instance_field_initializer(field)?;
+        for (field, key_name) in instance_fields.iter().zip(field_key_names) {
+            func_compiler.compile_instance_field_initializer(field, key_name.as_ref())?;
         }
 
         // Initialize instance private fields
@@ -2295,6 +2324,7 @@ impl Compiler {
     fn compile_default_constructor(
         &mut self,
         instance_fields: &[&ClassProperty],
+        field_key_names: &[Option<JsString>],
         instance_private_fields: &[&ClassProperty],
         instance_private_methods: &[&ClassMethod],
         class_brand: u32,
@@ -2333,8 +2363,8 @@ impl Compiler {
         }
 
         // Compile instance field initializers (these run AFTER super() call)
-        for field in instance_fields {
-            func_compiler.compile_instance_field_initializer(field)?;
+        for (field, key_name) in instance_fields.iter().zip(field_key_names) {
+            func_compiler.compile_instance_field_initializer(field, key_name.as_ref())?;
         }
 
         // Initialize instance private fields
@@ -2369,13 +2399,63 @@ impl Compiler {
         Ok(chunk)
     }
 
+    /// The property name of a field declared with a numeric literal (`class C { 1 = 'x' }`)
+    fn number_field_name(lit: &crate::ast::Literal) -> JsString {
+        match &lit.value {
+            crate::ast::LiteralValue::Number(n) => {
+                JsString::from(crate::value::JsValue::Number(*n).to_js_string().as_str())
+            }
+            _ => JsString::from("0"),
+        }
+    }
+
+    /// Hidden binding, in the scope the class is defined in, that holds the evaluated key of the
+    /// `index`-th instance field when that key is computed
+    fn computed_field_key_name(class_brand: u32, index: usize) -> JsString {
+        JsString::from(format!("%field-key:{}:{}", class_brand, index))
+    }
+
     /// Compile instance field initializer (this.field = value)
-    fn compile_instance_field_initializer(&mut self, field: &ClassProperty) -> Result<(), JsError> {
+    fn compile_instance_field_initializer(
+        &mut self,
+        field: &ClassProperty,
+        key_name: Option<&JsString>,
+    ) -> Result<(), JsError> {
         // Get field name
         let field_name: JsString = match &field.key {
             ObjectPropertyKey::Identifier(id) => id.name.cheap_clone(),
             ObjectPropertyKey::String(s) => s.value.cheap_clone(),
-            _ => return Ok(()), // Skip computed/private for now
+            ObjectPropertyKey::Number(lit) => Self::number_field_name(lit),
+            ObjectPropertyKey::Computed(_) => {
+                // The key was evaluated once, when the class was defined
+                let key_reg = self.builder.alloc_register()?;
+                let Some(key_name) = key_name else {
+                    return Ok(());
+                };
+                let key_var = self.builder.add_string(key_name.cheap_clone())?;
+                self.builder.emit(Op::GetVar {
+                    dst: key_reg,
+                    name: key_var,
+                });
+                let this_reg = self.builder.alloc_register()?;
+                self.builder.emit(Op::LoadThis { dst: this_reg });
+                let value_reg = self.builder.alloc_register()?;
+                if let Some(init) = &field.value {
+                    self.compile_expression(init, value_reg)?;
+                } else {
+                    self.builder.emit(Op::LoadUndefined { dst: value_reg });
+                }
+                self.builder.emit(Op::SetProperty {
+                    obj: this_reg,
+                    key: key_reg,
+                    value: value_reg,
+                });
+                self.builder.free_register(value_reg);
+                self.builder.free_register(this_reg);
+                self.builder.free_register(key_reg);
+                return Ok(());
+            }
+            ObjectPropertyKey::PrivateIdentifier(_) => return Ok(()),
         };
 
         let name_idx = self.builder.add_string(field_name)?;
@@ -2438,7 +2518,26 @@ impl Compiler {
         let field_name: JsString = match &field.key {
             ObjectPropertyKey::Identifier(id) => id.name.cheap_clone(),
             ObjectPropertyKey::String(s) => s.value.cheap_clone(),
-            _ => return Ok(()), // Skip computed/private for now
+            ObjectPropertyKey::Number(lit) => Self::number_field_name(lit),
+            ObjectPropertyKey::Computed(key_expr) => {
+                let key_reg = self.builder.alloc_register()?;
+                self.compile_expression(key_expr, key_reg)?;
+                let value_reg = self.builder.alloc_register()?;
+                if let Some(init) = &field.value {
+                    self.compile_expression(init, value_reg)?;
+                } else {
+                    self.builder.emit(Op::LoadUndefined { dst: value_reg });
+                }
+                self.builder.emit(Op::SetProperty {
+                    obj: class_reg,
+                    key: key_reg,
+                    value: value_reg,
+                });
+                self.builder.free_register(value_reg);
+                self.builder.free_register(key_reg);
+                return Ok(());
+            }
+            ObjectPropertyKey::PrivateIdentifier(_) => return Ok(()),
         };
 
         let name_idx = self.builder.add_string(field_name)?;
